@@ -59,10 +59,12 @@ open Redka Redka.Model Redka.Spec
 
 /-! ### the family and the classifiers of known deviations -/
 
-/-- the operations of `DB.Str()` the theorem speaks about (float increment excluded) -/
+/-- the operations of `DB.Str()`: all eight, float increment included (decided on the numeric
+domain of `valueFloat` / `formatFloatDec`; outside it model and specification both say "not
+decided" and change nothing) -/
 def isStrOp : Op → Bool
-  | .strGet _ | .strGetMany _ | .strSet .. | .strSetExpires .. | .strIncr .. | .strSetMany _
-  | .strSetWith .. => true
+  | .strGet _ | .strGetMany _ | .strSet .. | .strSetExpires .. | .strIncr .. | .strIncrFloat ..
+  | .strSetMany _ | .strSetWith .. => true
   | _ => false
 
 def IsStrOp (op : Op) : Prop := isStrOp op = true
@@ -134,6 +136,9 @@ theorem str_refines_wf : ∀ (op : Op) (now : Int) (db : DB),
     refine strIncr_refines hw hns d harg ?_
     intro b n hb hn
     simpa [Overflow, hb, hn] using hov
+  case strIncrFloat k d =>
+    have hns : staleKey db now k = false := by simpa [Stale, writeKeys] using hst
+    exact strIncrFloat_refines hw hns d
   case strSetMany items =>
     have hns : ∀ p ∈ items, staleKey db now p.1 = false := by
       intro p hp
@@ -179,6 +184,7 @@ theorem str_preserves_wf : ∀ (op : Op) (now : Int) (db : DB), IsStrOp op → d
   case strSet k v => exact update_wf hw (strSet_wf hw k v none now)
   case strSetExpires k v ttl => exact update_wf hw (strSet_wf hw k v _ now)
   case strIncr k d => exact update_wf hw (strIncr_wf hw k d now)
+  case strIncrFloat k d => exact update_wf hw (strIncrFloat_wf hw k d now)
   case strSetMany items => exact update_wf hw (strSetMany_wf now items db hw)
   case strSetWith k v o => exact update_wf hw (strSetWith_wf hw k v o now)
 
